@@ -15,7 +15,10 @@ use std::sync::atomic::{AtomicU64, AtomicUsize, Ordering};
 use std::sync::Arc;
 use std::time::{Duration, SystemTime, UNIX_EPOCH};
 use tensor_chain::deadlock::{DeadlockDetector, DeadlockDetectorConfig, VictimSelectionPolicy, WaitForGraph};
-use tensor_chain::distributed_tx::{KeyLock, LockManager, SerializableLockState};
+use tensor_chain::consensus::{ConsensusConfig, ConsensusManager};
+use tensor_chain::distributed_tx::{CoordinatorState, DistributedTxConfig, DistributedTxCoordinator, KeyLock, LockManager, PrepareRequest, PrepareVote, SerializableLockState};
+use tensor_chain::Transaction;
+use tensor_store::{ScalarValue, SparseVector, TensorData, TensorStore, TensorValue};
 
 const TICK: u64 = 100_000;
 const INJ_BASE_REAL: u64 = 1 << 60;
@@ -907,6 +910,144 @@ fn thread_hammer(rep: &mut Report, seed_rng: &Rng, threads: usize, iters: usize,
     }
 }
 
+// ------------------------------------------------------------------ the real coordinator: ended transactions vs its wait-for graph
+
+fn prep(tx: u64, keys: &[u64], axis: usize) -> PrepareRequest {
+    let mut e = vec![0.0f32; 8];
+    e[axis % 8] = 1.0;
+    PrepareRequest {
+        tx_id: tx,
+        coordinator: "n1".to_string(),
+        operations: keys.iter().map(|k| Transaction::Put { key: kname(*k), data: vec![1] }).collect(),
+        delta_embedding: SparseVector::from_dense(&e),
+        timeout_ms: 5000,
+    }
+}
+fn in_wait_graph(c: &DistributedTxCoordinator, tx: u64, universe: &[u64]) -> bool {
+    let g = c.wait_graph();
+    !g.waiting_for(tx).is_empty() || !g.waiting_on(tx).is_empty() || universe.iter().any(|o| g.waiting_for(*o).contains(&tx) || g.waiting_on(*o).contains(&tx))
+}
+
+/// Directed + random scenarios on `DistributedTxCoordinator`: after abort / commit the transaction must hold
+/// no lock and must not appear in the coordinator's wait-for graph (property C12, second sentence).
+fn coordinator_scenarios(rep: &mut Report, r: &mut Rng, random_cases: u64) {
+    let stream = "coord.end_of_tx";
+    // --- A: a prepare refused with a lock conflict registers the waiter; the abort that follows never removes it
+    {
+        let c = DistributedTxCoordinator::with_consensus(ConsensusManager::new(ConsensusConfig::default()));
+        let t1 = c.begin(&"n1".to_string(), &[0]).map(|t| t.tx_id);
+        let t2 = c.begin(&"n1".to_string(), &[0]).map(|t| t.tx_id);
+        if let (Ok(t1), Ok(t2)) = (t1, t2) {
+            let v1 = c.handle_prepare(&prep(t1, &[1], 0));
+            let _ = c.record_vote(t1, 0, v1.clone());
+            let v2 = c.handle_prepare(&prep(t2, &[1], 1));
+            let was_waiting = !c.wait_graph().waiting_for(t2).is_empty();
+            let _ = c.record_vote(t2, 0, v2.clone());
+            let ab = c.abort(t2, "conflict");
+            rep.hit("coord.A.run");
+            if matches!(v1, PrepareVote::Yes { .. }) && matches!(v2, PrepareVote::Conflict { .. }) && ab.is_ok() {
+                if was_waiting { rep.hit("coord.A.waiter_registered"); }
+                if c.lock_manager().lock_count_for_transaction(t2) != 0 {
+                    rep.violation("DistributedTxCoordinator.abort/locks_remain", "aborted transaction still holds locks", json!({"scenario": "A"}));
+                }
+                if in_wait_graph(&c, t2, &[t1, t2]) {
+                    rep.violation(
+                        "DistributedTxCoordinator.abort/ended_waiter_stays_in_wait_graph",
+                        "a transaction whose prepare was refused with a lock conflict (so it has no lock handle) is still a waiter in the coordinator's wait-for graph after abort()",
+                        json!({"scenario": "begin t1,t2 (one shard each); handle_prepare(t1,[k1])=Yes; record_vote; handle_prepare(t2,[k1])=Conflict; record_vote(t2)=Aborting; abort(t2)",
+                               "wait_graph_after": {"waiting_for_t2": c.wait_graph().waiting_for(t2).len(), "waiting_on_t1": c.wait_graph().waiting_on(t1).len()}}),
+                    );
+                }
+            }
+            rep.case(stream, Some("A"));
+        }
+    }
+    // --- B: a holder whose lock expired and was taken over is never removed from the graph by commit
+    {
+        let store = TensorStore::new();
+        let state = CoordinatorState { pending: HashMap::new(), lock_state: SerializableLockState::new(HashMap::new(), HashMap::new(), 40) };
+        let mut data = TensorData::new();
+        data.set("state", TensorValue::Scalar(ScalarValue::Bytes(bitcode::serialize(&state).unwrap_or_default())));
+        let _ = store.put("_dtx:coordinator:n1:state".to_string(), data);
+        if let Ok(c) = DistributedTxCoordinator::load_from_store("n1", &store, ConsensusManager::new(ConsensusConfig::default()), DistributedTxConfig::default()) {
+            let ids: Vec<u64> = (0..3).filter_map(|_| c.begin(&"n1".to_string(), &[0]).ok().map(|t| t.tx_id)).collect();
+            if ids.len() == 3 && c.lock_manager().default_timeout == Duration::from_millis(40) {
+                let (t1, t3, t2) = (ids[0], ids[1], ids[2]);
+                let v1 = c.handle_prepare(&prep(t1, &[1], 0));
+                let ph = c.record_vote(t1, 0, v1.clone());
+                let v3 = c.handle_prepare(&prep(t3, &[1], 1)); // refused: t3 waits for t1
+                std::thread::sleep(Duration::from_millis(70)); // t1's lock expires (timeout 40 ms)
+                let v2 = c.handle_prepare(&prep(t2, &[1], 2)); // takes the key over
+                let cm = c.commit(t1);
+                rep.hit("coord.B.run");
+                if matches!(v1, PrepareVote::Yes { .. }) && matches!(v3, PrepareVote::Conflict { .. }) && matches!(v2, PrepareVote::Yes { .. }) && cm.is_ok() {
+                    rep.hit("coord.B.takeover_reached");
+                    if in_wait_graph(&c, t1, &ids) {
+                        rep.violation(
+                            "DistributedTxCoordinator.commit/ended_holder_stays_in_wait_graph",
+                            "a committed transaction whose lock had expired and been taken over is still a holder in the coordinator's wait-for graph (release_by_handle_with_wait_cleanup found no lock with its handle, so it skipped the graph cleanup)",
+                            json!({"scenario": "lock timeout 40ms; prepare(t1,[k1])=Yes; prepare(t3,[k1])=Conflict (t3 waits for t1); sleep 70ms; prepare(t2,[k1])=Yes (takes over expired lock); commit(t1)",
+                                   "waiting_on_t1": c.wait_graph().waiting_on(t1).len()}),
+                        );
+                    }
+                } else {
+                    rep.note(&format!("coord scenario B not reached: v1={v1:?} phase={ph:?} v3={v3:?} v2={v2:?} commit={cm:?}"));
+                }
+                rep.case(stream, Some("B"));
+            }
+        }
+    }
+    // --- random: N single-shard transactions over few keys, prepared in random order, then each committed or aborted
+    for case in 0..random_cases {
+        let c = DistributedTxCoordinator::with_consensus(ConsensusManager::new(ConsensusConfig::default()));
+        let n = 2 + r.below(4);
+        let ids: Vec<u64> = (0..n).filter_map(|_| c.begin(&"n1".to_string(), &[0]).ok().map(|t| t.tx_id)).collect();
+        let mut script = Vec::new();
+        let mut order: Vec<usize> = (0..ids.len()).collect();
+        r.shuffle(&mut order);
+        for i in &order {
+            let ks: Vec<u64> = (0..1 + r.below(2)).map(|_| r.below(3)).collect();
+            let v = c.handle_prepare(&prep(ids[*i], &ks, *i));
+            let kind = match v { PrepareVote::Yes { .. } => "yes", PrepareVote::Conflict { .. } => "conflict", _ => "no" };
+            rep.hit(&format!("coord.prepare.{kind}"));
+            script.push(format!("prepare t{i} {ks:?} -> {kind}"));
+            let _ = c.record_vote(ids[*i], 0, v);
+        }
+        r.shuffle(&mut order);
+        for i in &order {
+            let tx = ids[*i];
+            let how = if c.commit(tx).is_ok() { "commit" } else if c.abort(tx, "test").is_ok() { "abort" } else { "gone" };
+            script.push(format!("{how} t{i}"));
+            if c.lock_manager().lock_count_for_transaction(tx) != 0 && how != "gone" {
+                rep.violation("DistributedTxCoordinator/locks_remain_after_end", "ended transaction still holds locks", json!({"script": script}));
+            }
+            // the property is checked at the moment the transaction ends, while others are still live
+            if how != "gone" && in_wait_graph(&c, tx, &ids) {
+                rep.hit("coord.random.ended_tx_in_wait_graph");
+                rep.violation(
+                    "DistributedTxCoordinator.abort/ended_waiter_stays_in_wait_graph",
+                    "a transaction that just ended still appears in the coordinator's wait-for graph",
+                    json!({"case": case, "script": script, "tx": format!("t{i}"), "edges": c.wait_graph().edge_count()}),
+                );
+            }
+        }
+        let leftover: Vec<usize> = (0..ids.len()).filter(|i| in_wait_graph(&c, ids[*i], &ids)).collect();
+        if !leftover.is_empty() {
+            rep.hit("coord.random.leftover_in_wait_graph");
+            rep.violation(
+                "DistributedTxCoordinator.abort/ended_waiter_stays_in_wait_graph",
+                "every transaction ended but the coordinator's wait-for graph still has edges for some of them",
+                json!({"case": case, "script": script, "leftover": leftover, "edges": c.wait_graph().edge_count()}),
+            );
+        }
+        if c.lock_manager().active_lock_count() != 0 {
+            rep.violation("DistributedTxCoordinator/locks_remain_after_end", "locks remain after every transaction ended", json!({"script": script}));
+        }
+        let key = script.join(";");
+        rep.case(stream, Some(&key));
+    }
+}
+
 // ------------------------------------------------------------------ untouched-API real-time stream
 
 fn realtime_case(m: &mut Model, rep: &mut Report, r: &mut Rng) {
@@ -977,7 +1118,7 @@ fn main() {
     let scale: u64 = if args.thorough { 10 } else { 1 };
 
     let t_start = std::time::Instant::now();
-    let mut lap = |name: &str| eprintln!("[corr_locks] {name} done at {:.1}s", t_start.elapsed().as_secs_f64());
+    let lap = |name: &str| eprintln!("[corr_locks] {name} done at {:.1}s", t_start.elapsed().as_secs_f64());
     // ---- stream 1: lock-table op sequences (virtual clock), with shrinking of a disagreement
     let mut r = root.fork("table");
     for c in 0..2500 * scale {
@@ -1060,6 +1201,11 @@ fn main() {
     }
 
     lap("threads");
+
+    // ---- stream 8: the real coordinator (oracle only): ended transactions vs locks and wait-for graph
+    let mut r = root.fork("coord");
+    coordinator_scenarios(&mut rep, &mut r, 200 * scale);
+    lap("coord");
     rep.note("lock-table time is a virtual tick clock realised through the public serialize/restore path (acquired_at_ms shifted); the exact elapsed==timeout millisecond boundary of KeyLock::is_expired is not controllable without a clock hook (proposed/C12-clock.diff)");
     rep.note("iteration order of the private HashMap/HashSet of WaitForGraph is read from its Debug output and passed to the model as an explicit input");
     rep.note("threads: real OS threads, no deterministic scheduler; each LockManager op is one critical section (both RwLocks taken together), so the sequential theorems apply per linearisation; the monitor is an oracle only");
